@@ -964,7 +964,7 @@ func (in *instr) selector(c *astutil.Cursor, n *ast.SelectorExpr) {
 			case "sync":
 				if _, ok := obj.(*types.TypeName); ok {
 					switch obj.Name() {
-					case "Mutex", "RWMutex", "WaitGroup", "Once", "Cond", "Locker":
+					case "Mutex", "RWMutex", "WaitGroup", "Once", "Cond", "Locker", "Pool", "Map":
 						st.Rewrites["sync_type"]++
 						in.used = true
 						c.Replace(sel(obj.Name()))
@@ -973,11 +973,14 @@ func (in *instr) selector(c *astutil.Cursor, n *ast.SelectorExpr) {
 					}
 					return
 				}
-				if _, ok := obj.(*types.Func); ok && obj.Name() == "NewCond" {
-					st.Rewrites["sync_type"]++
-					in.used = true
-					c.Replace(sel("NewCond"))
-					return
+				if _, ok := obj.(*types.Func); ok {
+					switch obj.Name() {
+					case "NewCond", "OnceFunc", "OnceValue", "OnceValues":
+						st.Rewrites["sync_type"]++
+						in.used = true
+						c.Replace(sel(obj.Name()))
+						return
+					}
 				}
 				unsupported(in.fset, n.Pos(), "sync."+obj.Name())
 				return
@@ -1315,7 +1318,7 @@ func (in *instr) fileResetVars(f *ast.File) []resetVar {
 					out = append(out, resetVar{names: []string{"_"}, value: vs.Values[i], spec: vs, idx: i})
 					continue
 				}
-				if obj == nil || isSyncType(obj.Type()) {
+				if obj == nil {
 					continue
 				}
 				if _, isFunc := obj.Type().Underlying().(*types.Signature); isFunc {
@@ -1393,30 +1396,10 @@ func (in *instr) writeReset(dir string) {
 						continue
 					}
 					if len(vs.Values) == 0 {
-						if isSyncType(obj.Type()) {
-							if n, ok := obj.Type().(*types.Named); ok && n.Obj().Pkg().Path() == "sync" {
-								switch n.Obj().Name() {
-								case "Mutex", "RWMutex", "WaitGroup", "Once":
-									stmts = append(stmts, fmt.Sprintf("%s = simrt.%s{}", name.Name, n.Obj().Name()))
-									needSimrt = true
-								}
-							}
-							if n, ok := obj.Type().(*types.Named); ok && n.Obj().Pkg().Path() == "sync/atomic" {
-								switch n.Obj().Name() {
-								case "Int32", "Int64", "Uint32", "Uint64", "Bool", "Value":
-									stmts = append(stmts, fmt.Sprintf("%s = simrt.%s{}", name.Name, n.Obj().Name()))
-									needSimrt = true
-								}
-							}
-							continue
-						}
-						switch obj.Type().Underlying().(type) {
-						case *types.Basic, *types.Map, *types.Slice, *types.Pointer, *types.Interface:
-							ts := types.TypeString(obj.Type(), in.qualifier(f))
-							if !strings.Contains(ts, ".") {
-								stmts = append(stmts, fmt.Sprintf("{ var z %s; %s = z }", ts, name.Name))
-							}
-						}
+						// declared without an initialiser: back to the zero value,
+						// whatever the type (locks, atomics, maps, pointers, ...)
+						stmts = append(stmts, fmt.Sprintf("simrt.ResetZero(&%s)", name.Name))
+						needSimrt = true
 						continue
 					}
 					if len(vs.Values) != len(vs.Names) {
